@@ -1,9 +1,85 @@
-//! C19 (d): serde indentation — filled in together with the serde type family.
+//! C19 (d): the serde serializer's indentation adds only whitespace between markup, so that
+//! indented and plain serializations deserialize to equal values.
+
 use crate::engine::{Ctx, Verdict};
+use crate::refxml::{self, Tok};
+use crate::types::*;
+use proptest::prelude::*;
+use serde::{Deserialize, Serialize};
 use serde_json::Value;
 
-pub fn run(_ctx: &Ctx) {}
+#[derive(Clone, Debug, Serialize, Deserialize, PartialEq)]
+pub struct Case {
+    pub value: Val,
+    pub level: u8,
+    pub indent: (char, u8),
+    pub expand_empty: bool,
+}
 
-pub fn replay(_case: &Value) -> Result<Verdict, String> {
-    Err("serde stage not built".into())
+pub fn check(c: &Case) -> Verdict {
+    let plain_o = SerOpts { level: c.level % 3, indent: None, expand_empty: c.expand_empty, root: None };
+    let ind_o = SerOpts { indent: Some(c.indent), ..plain_o.clone() };
+    let plain = match c.value.serialize_with(&plain_o) {
+        Ok(x) => x,
+        Err(e) => return Verdict::fail(format!("plain serialization failed: {}", e)),
+    };
+    let ind = match c.value.serialize_with(&ind_o) {
+        Ok(x) => x,
+        Err(e) => return Verdict::fail(format!("indented serialization failed: {} (plain succeeded: {:?})", e, plain)),
+    };
+    // byte level: same tokens; the indented document may only have extra blank text made of a
+    // newline and indent characters, directly before markup that does not follow text
+    let tp = refxml::lex(plain.as_bytes());
+    let ti = refxml::lex(ind.as_bytes());
+    let pb = plain.as_bytes();
+    let ib = ind.as_bytes();
+    let (mut a, mut b) = (0usize, 0usize);
+    let mut insertions = 0;
+    let mut after_text = false;
+    while b < ti.len() {
+        let tok_i = &ib[ti[b].start..ti[b].end];
+        if a < tp.len() && &pb[tp[a].start..tp[a].end] == tok_i {
+            after_text = matches!(tp[a].tok, Tok::Text(_) | Tok::CData(_));
+            a += 1;
+            b += 1;
+            continue;
+        }
+        let is_indent = matches!(ti[b].tok, Tok::Text(_)) && tok_i.first() == Some(&b'\n') && tok_i[1..].iter().all(|x| *x == c.indent.0 as u8);
+        let next_is_markup = ti.get(b + 1).map_or(false, |l| !matches!(l.tok, Tok::Text(_) | Tok::CData(_)));
+        if is_indent && next_is_markup && !after_text {
+            insertions += 1;
+            b += 1;
+            continue;
+        }
+        return Verdict::fail(format!("indented output differs from the plain output by more than newline+indent before markup (token {:?}{}): plain {:?} | indented {:?}", String::from_utf8_lossy(tok_i), if after_text { ", directly after text" } else { "" }, plain, ind));
+    }
+    if a != tp.len() {
+        return Verdict::fail(format!("indented output lacks tokens of the plain output: plain {:?} | indented {:?}", plain, ind));
+    }
+    let ty = c.value.ty();
+    let vp = ty.from_str(&plain);
+    let vi = ty.from_str(&ind);
+    match (vp, vi) {
+        (Ok(x), Ok(y)) if x == y && x == c.value => {}
+        (x, y) => return Verdict::fail(format!("plain {:?} -> {:?}; indented {:?} -> {:?}; value {:?}", plain, x.map_err(|e| e.to_string()), ind, y.map_err(|e| e.to_string()), c.value)),
+    }
+    let mixed = matches!(&c.value, Val::MixedList(m) if m.items.iter().any(|i| matches!(i, Choice::Text(_))) && m.items.len() >= 2);
+    let mut v = Verdict::pass(insertions > 0);
+    v.classes.push("serde");
+    if mixed {
+        v.classes.push("serde-mixed-text-and-elements");
+    }
+    v
+}
+
+pub fn run(ctx: &Ctx) {
+    let strat = || {
+        Box::new((prop_oneof![2 => any_val(), 1 => val_of(Ty::MixedList), 1 => val_of(Ty::ChoiceHolder)], 0u8..3, (prop::sample::select(vec![' ', '\t']), 0u8..6), any::<bool>()).prop_map(|(value, level, indent, expand_empty)| Case { value, level, indent, expand_empty }))
+    };
+    ctx.run_proptest_with("serde-indentation", ctx.tier.pick(400_000, 5_000_000), strat, check);
+}
+
+pub fn replay(case: &Value) -> Result<Verdict, String> {
+    let c: Case = serde_json::from_value(case.clone()).map_err(|e| e.to_string())?;
+    Ok(check(&c))
 }
